@@ -23,3 +23,7 @@ package model
 //@   ensures isBR(r) && err == nil && brAt(r, 0) == 4 ==> len(a.IP) == 16 && forall(k, 0, 16, a.IP[k] == brAt(r, 1 + k)) && a.Port == int(brAt(r, 17)) * 256 + int(brAt(r, 18)) && br(r).i == old(br(r).i) + 19 && a.FQDN == old(a.FQDN)
 //@   ensures isBR(r) && err == nil && brAt(r, 0) == 3 ==> len(a.FQDN) == int(brAt(r, 1)) && forall(k, 0, len(a.FQDN), a.FQDN[k] == brAt(r, 2 + k)) && a.Port == int(brAt(r, 2 + int(brAt(r, 1)))) * 256 + int(brAt(r, 3 + int(brAt(r, 1)))) && br(r).i == old(br(r).i) + 4 + int64(brAt(r, 1)) && a.IP == old(a.IP)
 //@   ensures err == nil ==> 0 <= a.Port && a.Port <= 65535
+//@   // completeness for an in-memory reader: a well-formed address that is entirely present is accepted
+//@   ensures isBR(r) && int(old(br(r).i)) + 7 <= len(br(r).s) && brAt(r, 0) == 1 ==> err == nil
+//@   ensures isBR(r) && int(old(br(r).i)) + 19 <= len(br(r).s) && brAt(r, 0) == 4 ==> err == nil
+//@   ensures isBR(r) && int(old(br(r).i)) + 2 <= len(br(r).s) && brAt(r, 0) == 3 && int(old(br(r).i)) + 4 + int(brAt(r, 1)) <= len(br(r).s) ==> err == nil
